@@ -29,6 +29,10 @@ SPACES = {
 }
 
 
+SPACES["quick"] += engine_g.family_specs(list(range(4, 13)) + [16, 17])
+SPACES["thorough"] += engine_g.family_specs(list(range(4, 13)) + [16, 17, 32, 33, 64, 65, 257, 258])
+
+
 def rv_label(v):
     return f"n{v.i}"
 
@@ -42,6 +46,10 @@ RE = {"none": None, "title": re_title}
 
 
 def member_lists(nv):
+    if nv > 4:
+        mid = nv // 2
+        return [tuple(range(nv)), tuple(i for i in range(nv) if i != mid), tuple(range(0, nv, 2)),
+                tuple(reversed(range(nv)))]
     out = [()]
     for n in range(1, nv + 1):
         out += list(itertools.combinations(range(nv), n))
@@ -140,7 +148,7 @@ def per_state(spec, seq, w):
 
 
 def _plain(spec):
-    return {k: (list(v) if isinstance(v, tuple) else v) for k, v in spec.items()}
+    return {k: (list(v) if isinstance(v, tuple) else v) for k, v in spec.items() if k != "explicit"}
 
 
 def replay_single(rec, verbose=False):
